@@ -269,7 +269,10 @@ def run_cpaging(ctx):
         for w in WITNESS:
             if (w == "Witness_SilentClose" and close_fails) or (w == "Witness_TwoErrorsQueued" and not late_bp):
                 continue
-            wcfg = tlc.write_cfg(os.path.join(S, "cp_wit.cfg"), constants=wc, invariants=[w], deadlock=False)
+            # with an empty second page only two rows exist, and "an error after two rows" then needs an error after
+            # the complete result - which only the (repaired) late back-pressure deviation produced: no empty page here
+            wcw = dict(wc, EmptyPages=set()) if (w == "Witness_ErrorAfterPages" and not late_bp) else wc
+            wcfg = tlc.write_cfg(os.path.join(S, "cp_wit.cfg"), constants=wcw, invariants=[w], deadlock=False)
             wres = tlc.check_model("ContinuousPaging", wcfg, S, timeout=2400)
             if wres.invariant != w:
                 raise tlc.MachineryError("vacuity: TLC does not reach %s" % w)
